@@ -31,7 +31,13 @@ type c12World struct {
 	addr string
 	path string
 	srv  bus.Server
+	pp   bus.Service // the PingPong service: scenarios add objects that may be terminated
 }
+
+// an object that takes its time: requests queue up in front of it
+type c12Slow struct{ sgImpl }
+
+func (p *c12Slow) Ping(a string) error { time.Sleep(15 * time.Millisecond); return nil }
 
 func c12Start() (*c12World, error) {
 	log.SetOutput(ioutil.Discard)
@@ -40,13 +46,14 @@ func c12Start() (*c12World, error) {
 	if err != nil {
 		return nil, err
 	}
-	if _, err := srv.NewService("PingPong", pong.PingPongObject(&sgImpl{})); err != nil {
+	pp, err := srv.NewService("PingPong", pong.PingPongObject(&sgImpl{}))
+	if err != nil {
 		return nil, err
 	}
 	if _, err := srv.NewService("Bomb", space.BombObject(&prBomb{})); err != nil {
 		return nil, err
 	}
-	return &c12World{addr: addr, path: strings.TrimPrefix(addr, "unix://"), srv: srv}, nil
+	return &c12World{addr: addr, path: strings.TrimPrefix(addr, "unix://"), srv: srv, pp: pp}, nil
 }
 
 // raw connection of the hostile client, authenticated
@@ -314,6 +321,45 @@ func childC12(a []string) string {
 			}
 		}
 		c.Close()
+	case "terminate-busy":
+		// removal requests are legitimate; what surrounds them must not hurt anybody else: the object is
+		// busy, its queue is full of the client's requests, a terminate sits among them, more follow
+		c, err := w.rawConn()
+		if err != nil {
+			return "setup-error:" + err.Error()
+		}
+		go c12Drain(c, 3*time.Second)
+		// somebody else uses the same objects meanwhile (its requests queue up behind the client's)
+		other, err := w.rawConn()
+		if err != nil {
+			return "setup-error:" + err.Error()
+		}
+		go c12Drain(other, 3*time.Second)
+		for round := 0; round < 12; round++ {
+			id, err := w.pp.Add(pong.PingPongObject(&c12Slow{}))
+			if err != nil {
+				return "setup-error:" + err.Error()
+			}
+			n := uint32(1000 * round)
+			// paced: a burst beyond the connection's queue would simply be dropped
+			pace := func() { time.Sleep(time.Duration(50+r.Intn(150)) * time.Microsecond) }
+			for i := 0; i < 2+r.Intn(2); i++ {
+				c12Frame(c, qnet.Post, 2, id, 101, n+uint32(i), svString("slow"))
+				pace()
+			}
+			for i := 0; i < r.Intn(4); i++ {
+				c12Frame(c, qnet.Call, 2, id, 100, n+10+uint32(i), svString("x"))
+				pace()
+			}
+			c12Frame(c, qnet.Call, 2, id, 3, n+50, le32(id))
+			for i := 0; i < 8+r.Intn(14); i++ {
+				pace()
+				c12Frame(c, qnet.Call, 2, id, 100, n+100+uint32(i), svString("y"))
+				c12Frame(other, qnet.Call, 2, id, 100, n+100+uint32(i), svString("z"))
+			}
+			time.Sleep(time.Duration(r.Intn(40)) * time.Millisecond)
+		}
+		time.Sleep(100 * time.Millisecond)
 	case "flood-not-reading":
 		// metaObject calls whose replies are never read
 		c, err := w.rawConn()
@@ -372,7 +418,7 @@ func runC12(r *Rand, tier string, o *Out) {
 	if tier == "thorough" {
 		per = 12
 	}
-	for _, sc := range []string{"valid", "subscriptions", "raw", "lengths", "flood-reading", "flood-posts", "disconnects"} {
+	for _, sc := range []string{"valid", "subscriptions", "raw", "lengths", "flood-reading", "flood-posts", "terminate-busy", "disconnects"} {
 		for i := 0; i < per; i++ {
 			line := fmt.Sprintf("c12.run %s %d", sc, r.U64()>>1)
 			if out := o.Do("P", line, true); out != "ok" {
